@@ -217,17 +217,17 @@ func slotInfixFn(p *Parser, left ast.Expression) ast.Expression { return nil }
 //@ func slotExprFn(p, precedence)
 //@   props C04 C11 C16
 //@   abstract
-//@   use parseFrame
+//@   use parseFrame exprResult
 
 //@ func slotPrefixFn(p)
 //@   props C04 C11 C16
 //@   abstract
-//@   use parseFrame
+//@   use parseFrame exprResult
 
 //@ func slotInfixFn(p, left)
 //@   props C04 C11 C16
 //@   abstract
-//@   use parseFrame
+//@   use parseFrame infixResult
 
 // The context stack is exclusively owned by its field: PopContext reslices it and PushContext appends in place.
 //@ owned Parser.contextStack
@@ -332,23 +332,26 @@ func lemma_parseFrame_trans(p *Parser) {
 // The default expression step: one prefix parse, then the climbing loop at the requested binding power.
 //@ func baseParseExpression(p, precedence)
 //@   props C11 C16 C04 C02
-//@   use parseFrame ctxStable
+//@   use parseFrame ctxStable exprResult
 //@   ensures [shape@C02,C04] ncalls("(*Parser).ParsePrefixExpression") == 1 && ncalls("(*Parser).ParseRemainingExpressionWithPrecedence") == 1 && callOrder("(*Parser).ParsePrefixExpression", 0, "(*Parser).ParseRemainingExpressionWithPrecedence", 0) && callArg[int]("(*Parser).ParseRemainingExpressionWithPrecedence", 0, 2) == precedence && callArg[ast.Expression]("(*Parser).ParseRemainingExpressionWithPrecedence", 0, 1) == callResult[ast.Expression]("(*Parser).ParsePrefixExpression", 0)
 //@   ensures [result@C02,C04] result == callResult[ast.Expression]("(*Parser).ParseRemainingExpressionWithPrecedence", 0)
 
 //@ func (p *Parser) ParseLetStatement()
 //@   props C11 C16 C01
 //@   use parseFrame ctxStable
+//@   ensures [wf@C11] implies(len(p.errors) == len(old(p.errors)) && result != nil, result.Name != nil && (result.Value == nil || !isNil(result.Value)))
 //@   ensures [node@C01,C08,C15] implies(result != nil, eq(result.Token, old(p.CurrentToken)) && result.Name != nil && result.Name.Value == result.Name.Token.Literal)
 //@   ensures [err-on-nil] implies(result == nil, len(p.errors) > len(old(p.errors)))
 
 //@ func (p *Parser) ParseLetExpression()
 //@   props C11 C16
-//@   use parseFrame ctxStable
+//@   use parseFrame ctxStable exprResult
+//@   ensures [wf@C11] implies(len(p.errors) == len(old(p.errors)) && !isNil(result), isType[*ast.LetExpression](result) && result.(*ast.LetExpression).Name != nil && (result.(*ast.LetExpression).Value == nil || !isNil(result.(*ast.LetExpression).Value)))
 
 //@ func (p *Parser) ParseFunctionStatement()
 //@   props C11 C16 C01
 //@   use parseFrame
+//@   ensures [wf@C11] implies(len(p.errors) == len(old(p.errors)) && result != nil, result.Name != nil && result.Body != nil && forall(0, len(result.Parameters), func(k int) bool { return result.Parameters[k] != nil }))
 //@   ensures [node@C01,C08,C15] implies(result != nil, eq(result.Token, old(p.CurrentToken)) && result.Name != nil && result.Name.Value == result.Name.Token.Literal && result.Body == callResult[*ast.BlockStatement]("(*Parser).ParseBlockStatement", 0))
 //@   atcall (*Parser).ParseBlockStatement [ctx.function@C16] sameCtx(p.contextStack, push(old(p.contextStack), FunctionContext))
 //@   atcall (*Parser).ExpectToken [ctx.stable@C16] sameCtx(p.contextStack, old(p.contextStack))
@@ -358,12 +361,15 @@ func lemma_parseFrame_trans(p *Parser) {
 //@ func (p *Parser) ParseFunctionParameters()
 //@   props C11 C16
 //@   use parseFrame ctxStable
+//@   ensures [wf@C11] forall(0, len(result), func(k int) bool { return result[k] != nil })
+//@   loop 1 invariant [wf@C11] forall(0, len(identifiers), func(k int) bool { return identifiers[k] != nil })
 //@   loop 1 invariant [frame] parserInv(p) && sameCtx(p.contextStack, old(p.contextStack)) && p.currentExpressionPrecedence == old(p.currentExpressionPrecedence) && isPrefixErr(old(p.errors), p.errors)
 
 // Restricted production (ECMA-262 12.10.1): no operand is parsed when the next token is on a new line.
 //@ func (p *Parser) ParseReturnStatement()
 //@   props C11 C16 C02
 //@   use parseFrame ctxStable
+//@   ensures [wf@C11] implies(len(p.errors) == len(old(p.errors)) && result != nil, result.ReturnValue == nil || !isNil(result.ReturnValue))
 //@   ensures [restricted@C02] implies(old(p.PeekToken.AfterNewline), ncalls("(*Parser).ParseExpression") == 0)
 //@   ensures [operand@C02] implies(!old(p.PeekToken.AfterNewline) && old(p.PeekToken.Type) != token.SEMICOLON && old(p.PeekToken.Type) != token.EOF && old(p.PeekToken.Type) != token.RBRACE, ncalls("(*Parser).ParseExpression") == 1)
 //@   ensures [err-on-nil] implies(result == nil, len(p.errors) > len(old(p.errors)))
@@ -371,18 +377,21 @@ func lemma_parseFrame_trans(p *Parser) {
 //@ func (p *Parser) ParseIfStatement()
 //@   props C11 C16 C01
 //@   use parseFrame ctxStable
+//@   ensures [wf@C11] implies(len(p.errors) == len(old(p.errors)) && result != nil, !isNil(result.Condition) && !isNil(result.ThenBranch) && (result.ElseBranch == nil || !isNil(result.ElseBranch)))
 //@   ensures [node@C01,C08,C15] implies(result != nil, eq(result.Token, old(p.CurrentToken)))
 //@   ensures [err-on-nil] implies(result == nil, len(p.errors) > len(old(p.errors)))
 
 //@ func (p *Parser) ParseWhileStatement()
 //@   props C11 C16 C01
 //@   use parseFrame ctxStable
+//@   ensures [wf@C11] implies(len(p.errors) == len(old(p.errors)) && result != nil, !isNil(result.Condition) && !isNil(result.Body))
 //@   ensures [node@C01,C08,C15] implies(result != nil, eq(result.Token, old(p.CurrentToken)))
 //@   ensures [err-on-nil] implies(result == nil, len(p.errors) > len(old(p.errors)))
 
 //@ func (p *Parser) ParseForStatement()
 //@   props C11 C16 C01
 //@   use parseFrame ctxStable
+//@   ensures [wf@C11] implies(len(p.errors) == len(old(p.errors)) && result != nil, (result.Init == nil || !isNil(result.Init)) && (result.Condition == nil || !isNil(result.Condition)) && (result.Update == nil || !isNil(result.Update)) && !isNil(result.Body))
 //@   ensures [node@C01,C08,C15] implies(result != nil, eq(result.Token, old(p.CurrentToken)))
 //@   ensures [err-on-nil] implies(result == nil, len(p.errors) > len(old(p.errors)))
 
@@ -404,29 +413,30 @@ func lemma_parseFrame_trans(p *Parser) {
 //@ func (p *Parser) ParseExpressionStatement()
 //@   props C11 C16
 //@   use parseFrame ctxStable
+//@   ensures [wf@C11] implies(len(p.errors) == len(old(p.errors)) && result != nil, !isNil(result.Expression))
 //@   ensures [err-on-nil] implies(result == nil, len(p.errors) > len(old(p.errors)))
 
 //@ func (p *Parser) ParsePrefixExpression()
 //@   props C11 C16 C04 C02
-//@   use parseFrame ctxStable
+//@   use parseFrame ctxStable exprResult
 //@   ensures [unknown-prefix@C11] implies(!old(has(p.prefixParseFns, p.CurrentToken.Type)), isNil(result) && len(p.errors) == len(old(p.errors))+1)
 //@   ensures [dispatch@C02,C04] implies(old(has(p.prefixParseFns, p.CurrentToken.Type)) && ncalls("slotPrefixFn") == 1, result == callResult[ast.Expression]("slotPrefixFn", 0))
 //@   atcall slotPrefixFn [first-token@C04] eq(p.CurrentToken, old(p.CurrentToken)) && eq(p.PeekToken, old(p.PeekToken))
 
 //@ func (p *Parser) ParseInfixExpression(left)
 //@   props C11 C16 C02
-//@   use parseFrame ctxStable
+//@   use parseFrame ctxStable infixResult
 //@   ensures [no-infix@C02] implies(!old(has(p.infixParseFns, p.PeekToken.Type)), result == left && eq(p.PeekToken, old(p.PeekToken)))
 //@   atcall slotInfixFn [operator-current@C02] eq(p.CurrentToken, old(p.PeekToken)) && arg_left == left
 
 //@ func (p *Parser) ParseExpression()
 //@   props C11 C16 C02
-//@   use parseFrame ctxStable
+//@   use parseFrame ctxStable exprResult
 //@   ensures [level@C02] ncalls("slotExprFn") == 1 && callArg[int]("slotExprFn", 0, 1) == LOWEST && callArg[*Parser]("slotExprFn", 0, 0) == p && result == callResult[ast.Expression]("slotExprFn", 0)
 
 //@ func (p *Parser) ParseExpressionWithPrecedence(precedence)
 //@   props C11 C16 C02
-//@   use parseFrame ctxStable
+//@   use parseFrame ctxStable exprResult
 //@   ensures [level@C02] ncalls("slotExprFn") == 1 && callArg[int]("slotExprFn", 0, 1) == precedence && callArg[*Parser]("slotExprFn", 0, 0) == p && result == callResult[ast.Expression]("slotExprFn", 0)
 
 // The climbing loop. It continues only while the next token binds strictly tighter than the requested level (left
@@ -434,17 +444,18 @@ func lemma_parseFrame_trans(p *Parser) {
 // line break before '++'/'--' (restricted production); it stops only when one of those conditions fails.
 //@ func (p *Parser) ParseRemainingExpressionWithPrecedence(left, precedence)
 //@   props C11 C16 C13 C02
-//@   use parseFrame ctxStable
+//@   use parseFrame ctxStable infixResult
 //@   atcall (*Parser).ParseInfixExpression [climb.strict@C02] p.PeekToken.Type != token.SEMICOLON && precedence < specLevel(p.precedences, p.PeekToken.Type)
 //@   atcall (*Parser).ParseInfixExpression [smart.nocut@C13] !(p.smartSemicolons && p.PeekToken.AfterNewline && (p.PeekToken.Type == token.LPAREN || p.PeekToken.Type == token.LBRACKET))
 //@   atcall (*Parser).ParseInfixExpression [restricted.postfix@C02] !(p.PeekToken.AfterNewline && (p.PeekToken.Type == token.INCREMENT || p.PeekToken.Type == token.DECREMENT))
 //@   ensures [climb.exit@C02,C13] p.PeekToken.Type == token.SEMICOLON || precedence >= specLevel(p.precedences, p.PeekToken.Type) || (p.smartSemicolons && p.PeekToken.AfterNewline && (p.PeekToken.Type == token.LPAREN || p.PeekToken.Type == token.LBRACKET)) || (p.PeekToken.AfterNewline && (p.PeekToken.Type == token.INCREMENT || p.PeekToken.Type == token.DECREMENT))
 //@   loop 1 invariant [frame] parserInv(p) && sameCtx(p.contextStack, old(p.contextStack)) && p.currentExpressionPrecedence == old(p.currentExpressionPrecedence) && isPrefixErr(old(p.errors), p.errors)
+//@   loop 1 invariant [left@C11] implies(isNil(left), len(p.errors) > len(old(p.errors)) || isNil(old(left)))
 
 // Re-entrant continuation for expression interceptors: the same loop, at the binding power the innermost wrapper published.
 //@ func (p *Parser) ParseRemainingExpression(left)
 //@   props C11 C16 C04
-//@   use parseFrame ctxStable
+//@   use parseFrame ctxStable infixResult
 //@   ensures [same-level@C04] ncalls("(*Parser).ParseRemainingExpressionWithPrecedence") == 1 && callArg[int]("(*Parser).ParseRemainingExpressionWithPrecedence", 0, 2) == old(p.currentExpressionPrecedence) && callArg[ast.Expression]("(*Parser).ParseRemainingExpressionWithPrecedence", 0, 1) == left && result == callResult[ast.Expression]("(*Parser).ParseRemainingExpressionWithPrecedence", 0)
 
 //@ func (p *Parser) ParseIdentifier()
@@ -492,35 +503,42 @@ func lemma_parseFrame_trans(p *Parser) {
 //@ func (p *Parser) ParseUnaryExpression()
 //@   props C11 C16 C02 C01
 //@   use parseFrame ctxStable exprResult
+//@   ensures [wf@C11] implies(len(p.errors) == len(old(p.errors)), !isNil(result.(*ast.UnaryExpression).Right))
 //@   ensures [operand.level@C02] ncalls("(*Parser).NextToken") == 1 && ncalls("slotExprFn") == 1 && callOrder("(*Parser).NextToken", 0, "slotExprFn", 0) && callArg[int]("slotExprFn", 0, 1) == UNARY && callArg[*Parser]("slotExprFn", 0, 0) == p
 //@   ensures [node@C01,C08,C15] isType[*ast.UnaryExpression](result) && !isNil(result) && eq(result.(*ast.UnaryExpression).Token, old(p.CurrentToken)) && result.(*ast.UnaryExpression).Operator == old(p.CurrentToken.Literal) && result.(*ast.UnaryExpression).Right == callResult[ast.Expression]("slotExprFn", 0)
 
 //@ func (p *Parser) ParsePostfixExpression(left)
 //@   props C11 C16 C01 C02
-//@   use parseFrame ctxStable exprResult
+//@   use parseFrame ctxStable exprResult infixResult
+//@   ensures [wf@C11] implies(!isNil(left), !isNil(result.(*ast.PostfixExpression).Left))
 //@   ensures [node@C01,C08,C15] isType[*ast.PostfixExpression](result) && !isNil(result) && eq(result.(*ast.PostfixExpression).Token, old(p.CurrentToken)) && result.(*ast.PostfixExpression).Operator == old(p.CurrentToken.Literal) && result.(*ast.PostfixExpression).Left == left
 //@   ensures [no-token@C02] ncalls("(*Parser).NextToken") == 0 && ncalls("slotExprFn") == 0 && lexer.LexPos(p.lexer) == old(lexer.LexPos(p.lexer))
 
 //@ func (p *Parser) ParseGroupedExpression()
 //@   props C11 C16 C01 C02
 //@   use parseFrame ctxStable exprResult
+//@   ensures [wf@C11] implies(len(p.errors) == len(old(p.errors)) && !isNil(result), !isNil(result.(*ast.GroupedExpression).Expression))
 //@   ensures [inner.level@C02] ncalls("(*Parser).ParseExpression") == 1 && ncalls("slotExprFn") == 0
 //@   ensures [node@C01,C08,C15] implies(!isNil(result), isType[*ast.GroupedExpression](result) && eq(result.(*ast.GroupedExpression).Token, old(p.CurrentToken)) && result.(*ast.GroupedExpression).Expression == callResult[ast.Expression]("(*Parser).ParseExpression", 0) && eq(result.(*ast.GroupedExpression).RParen, p.CurrentToken) && p.CurrentToken.Type == token.RPAREN)
 
 //@ func (p *Parser) ParseArrayLiteral()
 //@   props C11 C16 C01
 //@   use parseFrame ctxStable exprResult
+//@   ensures [wf@C11] implies(len(p.errors) == len(old(p.errors)), forall(0, len(result.(*ast.ArrayLiteral).Elements), func(k int) bool { return !isNil(result.(*ast.ArrayLiteral).Elements[k]) }))
 //@   ensures [node@C01,C08,C15] isType[*ast.ArrayLiteral](result) && !isNil(result) && eq(result.(*ast.ArrayLiteral).Token, old(p.CurrentToken)) && eq(result.(*ast.ArrayLiteral).RBracket, p.CurrentToken)
 
 //@ func (p *Parser) ParseObjectLiteral()
 //@   props C11 C16 C01
 //@   use parseFrame ctxStable exprResult
+//@   ensures [wf@C11] implies(len(p.errors) == len(old(p.errors)) && !isNil(result), forall(0, len(result.(*ast.ObjectLiteral).Properties), func(k int) bool { return !isNil(result.(*ast.ObjectLiteral).Properties[k].Key) && !isNil(result.(*ast.ObjectLiteral).Properties[k].Value) }))
+//@   loop 1 invariant [wf@C11] implies(len(p.errors) == len(old(p.errors)), forall(0, len(obj.Properties), func(k int) bool { return !isNil(obj.Properties[k].Key) && !isNil(obj.Properties[k].Value) }))
 //@   ensures [node@C01,C08,C15] implies(!isNil(result), isType[*ast.ObjectLiteral](result) && eq(result.(*ast.ObjectLiteral).Token, old(p.CurrentToken)))
 //@   loop 1 invariant [frame] parserInv(p) && sameCtx(p.contextStack, old(p.contextStack)) && p.currentExpressionPrecedence == old(p.currentExpressionPrecedence) && isPrefixErr(old(p.errors), p.errors) && obj != nil
 
 //@ func (p *Parser) ParseFunctionExpression()
 //@   props C11 C16 C13 C01
 //@   use parseFrame exprResult
+//@   ensures [wf@C11] implies(len(p.errors) == len(old(p.errors)) && !isNil(result), result.(*ast.FunctionExpression).Body != nil && forall(0, len(result.(*ast.FunctionExpression).Parameters), func(k int) bool { return result.(*ast.FunctionExpression).Parameters[k] != nil }))
 //@   ensures [node@C01,C08,C15] implies(!isNil(result), isType[*ast.FunctionExpression](result) && eq(result.(*ast.FunctionExpression).Token, old(p.CurrentToken)) && result.(*ast.FunctionExpression).Body == callResult[*ast.BlockStatement]("(*Parser).ParseBlockStatement", 0))
 //@   atcall (*Parser).ParseBlockStatement [ctx.function@C16] sameCtx(p.contextStack, push(old(p.contextStack), FunctionContext))
 //@   atcall (*Parser).ExpectToken [ctx.stable@C16] sameCtx(p.contextStack, old(p.contextStack))
@@ -530,44 +548,52 @@ func lemma_parseFrame_trans(p *Parser) {
 // per-parser table while the operator is the current token.
 //@ func (p *Parser) ParseBinaryExpression(left)
 //@   props C11 C16 C02 C01 C05
-//@   use parseFrame ctxStable exprResult
+//@   use parseFrame ctxStable exprResult infixResult
+//@   ensures [wf@C11] implies(len(p.errors) == len(old(p.errors)) && !isNil(left), !isNil(result.(*ast.BinaryExpression).Left) && !isNil(result.(*ast.BinaryExpression).Right))
 //@   ensures [operand.level@C02,C03,C05] ncalls("(*Parser).NextToken") == 1 && ncalls("slotExprFn") == 1 && callOrder("(*Parser).NextToken", 0, "slotExprFn", 0) && callArg[int]("slotExprFn", 0, 1) == specLevel(p.precedences, old(p.CurrentToken.Type)) && callArg[*Parser]("slotExprFn", 0, 0) == p
 //@   ensures [node@C01,C08,C15] isType[*ast.BinaryExpression](result) && !isNil(result) && eq(result.(*ast.BinaryExpression).Token, old(p.CurrentToken)) && result.(*ast.BinaryExpression).Operator == old(p.CurrentToken.Literal) && result.(*ast.BinaryExpression).Left == left && result.(*ast.BinaryExpression).Right == callResult[ast.Expression]("slotExprFn", 0)
 
 // Assignment is right associative: the value is parsed from the lowest level again.
 //@ func (p *Parser) ParseAssignmentExpression(left)
 //@   props C11 C16 C02 C01
-//@   use parseFrame ctxStable exprResult
+//@   use parseFrame ctxStable exprResult infixResult
+//@   ensures [wf@C11] implies(len(p.errors) == len(old(p.errors)) && !isNil(left), !isNil(result.(*ast.AssignmentExpression).Left) && !isNil(result.(*ast.AssignmentExpression).Value))
 //@   ensures [operand.level@C02,C03] ncalls("(*Parser).NextToken") == 1 && ncalls("(*Parser).ParseExpression") == 1 && ncalls("slotExprFn") == 0 && callOrder("(*Parser).NextToken", 0, "(*Parser).ParseExpression", 0)
 //@   ensures [node@C01,C08,C15] isType[*ast.AssignmentExpression](result) && !isNil(result) && eq(result.(*ast.AssignmentExpression).Token, old(p.CurrentToken)) && result.(*ast.AssignmentExpression).Left == left && result.(*ast.AssignmentExpression).Value == callResult[ast.Expression]("(*Parser).ParseExpression", 0)
 
 //@ func (p *Parser) ParseCompoundAssignmentExpression(left)
 //@   props C11 C16 C02 C01
-//@   use parseFrame ctxStable exprResult
+//@   use parseFrame ctxStable exprResult infixResult
+//@   ensures [wf@C11] implies(len(p.errors) == len(old(p.errors)) && !isNil(left), !isNil(result.(*ast.CompoundAssignmentExpression).Left) && !isNil(result.(*ast.CompoundAssignmentExpression).Value))
 //@   ensures [operand.level@C02,C03] ncalls("(*Parser).NextToken") == 1 && ncalls("(*Parser).ParseExpression") == 1 && ncalls("slotExprFn") == 0 && callOrder("(*Parser).NextToken", 0, "(*Parser).ParseExpression", 0)
 //@   ensures [node@C01,C08,C15] isType[*ast.CompoundAssignmentExpression](result) && !isNil(result) && eq(result.(*ast.CompoundAssignmentExpression).Token, old(p.CurrentToken)) && result.(*ast.CompoundAssignmentExpression).Left == left && result.(*ast.CompoundAssignmentExpression).Value == callResult[ast.Expression]("(*Parser).ParseExpression", 0)
 //@   ensures [operator@C01] implies(old(p.CurrentToken.Type) == token.PLUS_ASSIGN, result.(*ast.CompoundAssignmentExpression).Operator == "+") && implies(old(p.CurrentToken.Type) == token.MINUS_ASSIGN, result.(*ast.CompoundAssignmentExpression).Operator == "-")
 
-//@ func (p *Parser) ParseCallExpression(fn)
+//@ func (p *Parser) ParseCallExpression(left)
 //@   props C11 C16 C01
-//@   use parseFrame ctxStable exprResult
-//@   ensures [node@C01,C08,C15] isType[*ast.CallExpression](result) && !isNil(result) && eq(result.(*ast.CallExpression).Token, old(p.CurrentToken)) && result.(*ast.CallExpression).Function == fn
+//@   use parseFrame ctxStable exprResult infixResult
+//@   ensures [wf@C11] implies(len(p.errors) == len(old(p.errors)) && !isNil(left), !isNil(result.(*ast.CallExpression).Function) && forall(0, len(result.(*ast.CallExpression).Arguments), func(k int) bool { return !isNil(result.(*ast.CallExpression).Arguments[k]) }))
+//@   ensures [node@C01,C08,C15] isType[*ast.CallExpression](result) && !isNil(result) && eq(result.(*ast.CallExpression).Token, old(p.CurrentToken)) && result.(*ast.CallExpression).Function == left
 
 //@ func (p *Parser) ParseMemberExpression(left)
 //@   props C11 C16 C02 C01
-//@   use parseFrame ctxStable exprResult
+//@   use parseFrame ctxStable exprResult infixResult
+//@   ensures [wf@C11] implies(len(p.errors) == len(old(p.errors)) && !isNil(left), !isNil(result.(*ast.MemberExpression).Object) && !isNil(result.(*ast.MemberExpression).Property))
 //@   ensures [operand.level@C02] ncalls("(*Parser).NextToken") == 1 && ncalls("slotExprFn") == 1 && callOrder("(*Parser).NextToken", 0, "slotExprFn", 0) && callArg[int]("slotExprFn", 0, 1) == MEMBER && callArg[*Parser]("slotExprFn", 0, 0) == p
 //@   ensures [node@C01,C08,C15] isType[*ast.MemberExpression](result) && !isNil(result) && eq(result.(*ast.MemberExpression).Token, old(p.CurrentToken)) && result.(*ast.MemberExpression).Object == left && !result.(*ast.MemberExpression).Computed && result.(*ast.MemberExpression).Property == callResult[ast.Expression]("slotExprFn", 0)
 
 //@ func (p *Parser) ParseComputedMemberExpression(left)
 //@   props C11 C16 C02 C01
-//@   use parseFrame ctxStable exprResult
+//@   use parseFrame ctxStable exprResult infixResult
+//@   ensures [wf@C11] implies(len(p.errors) == len(old(p.errors)) && !isNil(left) && !isNil(result), !isNil(result.(*ast.MemberExpression).Object) && !isNil(result.(*ast.MemberExpression).Property))
 //@   ensures [operand.level@C02] ncalls("(*Parser).ParseExpression") == 1 && ncalls("slotExprFn") == 0
 //@   ensures [node@C01,C08,C15] implies(!isNil(result), isType[*ast.MemberExpression](result) && eq(result.(*ast.MemberExpression).Token, old(p.CurrentToken)) && result.(*ast.MemberExpression).Object == left && result.(*ast.MemberExpression).Computed && result.(*ast.MemberExpression).Property == callResult[ast.Expression]("(*Parser).ParseExpression", 0))
 
 //@ func (p *Parser) ParseExpressionList(end)
 //@   props C11 C16
 //@   use parseFrame ctxStable
+//@   ensures [wf@C11] implies(len(p.errors) == len(old(p.errors)), forall(0, len(result), func(k int) bool { return !isNil(result[k]) }))
+//@   loop 1 invariant [wf@C11] implies(len(p.errors) == len(old(p.errors)), forall(0, len(args), func(k int) bool { return !isNil(args[k]) }))
 //@   loop 1 invariant [frame] parserInv(p) && sameCtx(p.contextStack, old(p.contextStack)) && p.currentExpressionPrecedence == old(p.currentExpressionPrecedence) && isPrefixErr(old(p.errors), p.errors)
 
 //@ func (p *Parser) ParseProgram()
@@ -624,7 +650,7 @@ func lemma_parseFrame_trans(p *Parser) {
 // interceptor runs and restores the previous value on every exit.
 //@ func (p *Parser) useExpressionInterceptor$1(p, precedence)
 //@   props C04 C11 C16
-//@   use parseFrame
+//@   use parseFrame exprResult
 //@   funcvar interceptor passthrough
 //@   funcvar next parser.slotExprFn
 //@   ensures [once@C04] ncalls("passthrough:interceptor") == 1 && ncalls("slotExprFn") == 1
@@ -646,7 +672,7 @@ func lemma_parseFrame_trans(p *Parser) {
 
 //@ func (p *Parser) registerPrefixOperator$1()
 //@   props C05 C11 C16
-//@   use parseFrame
+//@   use parseFrame exprResult
 //@   funcvar createExpr callback
 //@   ensures [once@C05] ncalls("callback:createExpr") == 1
 
@@ -654,7 +680,7 @@ func lemma_parseFrame_trans(p *Parser) {
 // then parse an expression at UNARY level.
 //@ func (p *Parser) registerPrefixOperator$1$1()
 //@   props C05 C11 C16
-//@   use parseFrame
+//@   use parseFrame exprResult
 //@   ensures [operand@C05] ncalls("(*Parser).NextToken") == 1 && ncalls("slotExprFn") == 1 && callOrder("(*Parser).NextToken", 0, "slotExprFn", 0) && callArg[int]("slotExprFn", 0, 1) == UNARY && callArg[*Parser]("slotExprFn", 0, 0) == p
 //@   ensures [result@C05] result == callResult[ast.Expression]("slotExprFn", 0)
 
@@ -671,7 +697,7 @@ func lemma_parseFrame_trans(p *Parser) {
 
 //@ func (p *Parser) registerInfixOperator$1(left)
 //@   props C05 C11 C16
-//@   use parseFrame
+//@   use parseFrame infixResult
 //@   funcvar createExpr callback
 //@   ensures [once@C05] ncalls("callback:createExpr") == 1
 
@@ -679,7 +705,7 @@ func lemma_parseFrame_trans(p *Parser) {
 // operator's own level, read from the per-parser table while the operator is the current token.
 //@ func (p *Parser) registerInfixOperator$1$1()
 //@   props C05 C11 C16
-//@   use parseFrame
+//@   use parseFrame exprResult
 //@   ensures [operand@C05] ncalls("(*Parser).NextToken") == 1 && ncalls("slotExprFn") == 1 && callOrder("(*Parser).NextToken", 0, "slotExprFn", 0) && callArg[int]("slotExprFn", 0, 1) == specLevel(p.precedences, old(p.CurrentToken.Type)) && callArg[*Parser]("slotExprFn", 0, 0) == p
 //@   ensures [result@C05] result == callResult[ast.Expression]("slotExprFn", 0)
 
@@ -697,7 +723,7 @@ func lemma_parseFrame_trans(p *Parser) {
 // A registered postfix operator consumes no token itself (a call-level suffix).
 //@ func (p *Parser) registerPostfixOperator$1(left)
 //@   props C05 C11 C16
-//@   use parseFrame
+//@   use parseFrame infixResult
 //@   funcvar createExpr callback
 //@   ensures [once@C05] ncalls("callback:createExpr") == 1
 //@   ensures [no-token@C05] ncalls("(*Parser).NextToken") == 0 && lexer.LexPos(p.lexer) == old(lexer.LexPos(p.lexer))
